@@ -53,8 +53,26 @@ def re_tokens(r, out):
     return out
 
 
-def def_lines(d):
-    """Definition in dump-AST syntax (one line per item), with action indices in source order."""
+BASE_KIND = {'autoinf': 'infallible', 'autofal': 'fallible'}
+
+
+def base_kinds(lines):
+    """definition lines with the protocol-only kinds `autoinf` / `autofal` replaced by the macro's kinds (what the dumped AST shows)"""
+    out = []
+    for l in lines:
+        w = l.split(' ')
+        if len(w) > 2 and w[1] == 'rule' and w[2] in BASE_KIND:
+            w[2] = BASE_KIND[w[2]]
+            l = ' '.join(w)
+        out.append(l)
+    return out
+
+
+def def_lines(d, model=False):
+    """Definition in dump-AST syntax (one line per item), with action indices in source order. `model=True`: for the Lean driver (keeps the
+    protocol-only kinds `autoinf` / `autofal`); otherwise as the macro's AST dump prints it."""
+    if not model:
+        return base_kinds(def_lines(d, True))
     lines = []
     idx = 0
 
